@@ -67,6 +67,30 @@ Theorem bleu_split_stays_valid_refuted : exists (n : nat) (b1 b2 : bbatch),
   bleu_ok n (b1 ++ b2) = true /\ bleu_ok n b1 = false /\ bleu_ok n b2 = true.
 Proof. exact (ex_intro _ 3 (ex_intro _ _ (ex_intro _ _ bleu_split_witness))). Qed.
 
+(* ---- V_fixed (repaired _bleu_score_compute) ---- *)
+Theorem bleu_class_eq_guarded_functional_fixed : forall (c : bcfg) bs, Forall (bleu_valid c) bs ->
+  class_run (bleu_spec_add_v V_fixed) c bs =
+  (if bleu_no_match c (concat bs) then vq 0%Qc else bleu_fn_v V_fixed c (concat bs)).
+Proof. intros c bs H. rewrite (bleu_class_eq_fn_v V_fixed c bs H). apply bleu_gamma_guard_v. Qed.
+(* class = functional WITHOUT the positive-weights proviso: weights may be zero (all >= 0, one > 0) *)
+Theorem bleu_class_eq_functional_fixed : forall (c : bcfg) b bs,
+  1 <= fst c -> List.length (bleu_weights c) = fst c ->
+  Forall (fun w => w = 0%Qc \/ qlt 0 w = true) (bleu_weights c) ->
+  Exists (fun w => qlt 0 w = true) (bleu_weights c) ->
+  bleu_valid c b -> Forall (bleu_valid c) bs ->
+  class_run (bleu_spec_add_v V_fixed) c (b :: bs) = bleu_fn_v V_fixed c (concat (b :: bs)) /\ bleu_valid c (concat (b :: bs)).
+Proof. exact bleu_class_eq_functional_fixed_gen. Qed.
+Theorem text_bleu_fixed_fn_runs_bleu_fn : forall cv bv c b,
+  dec_bcfg cv = Some c -> dec_bbatch bv = Some b -> bleu_valid c b ->
+  run_text_bleu_fixed_fn (VL [cv; bv]) = bleu_fn_v V_fixed c b.
+Proof. exact (run_bleu_fn_v_is_bleu_fn_v V_fixed). Qed.
+(* REFUTED even after the repair when ALL weights are zero and nothing matched: the class's guard returns
+   0.0, the functional the bare brevity penalty exp(1 - 3/2) (the guard was left as it is) *)
+Theorem bleu_class_eq_functional_all_zero_weights_refuted : exists (c : bcfg) (b : bbatch),
+  bleu_valid c b /\ class_run (bleu_spec_add_v V_fixed) c [b] = VQ 0 1 /\
+  bleu_fn_v V_fixed c b = rmul (rexp (VQ (-1) 2)) (rexp (radd (radd (VQ 0 1) (VQ 0 1)) (VQ 0 1))).
+Proof. exact (ex_intro _ _ (ex_intro _ _ bleu_fixed_all_zero_witness)). Qed.
+
 (* non-vacuity *)
 Open Scope Z_scope.
 Example wer_three_batches_example :
@@ -93,3 +117,7 @@ Print Assumptions bleu_default_weights_positive.
 Print Assumptions text_bleu_fn_runs_bleu_fn.
 Print Assumptions bleu_class_eq_functional_zero_weight_refuted.
 Print Assumptions bleu_split_stays_valid_refuted.
+Print Assumptions bleu_class_eq_guarded_functional_fixed.
+Print Assumptions bleu_class_eq_functional_fixed.
+Print Assumptions text_bleu_fixed_fn_runs_bleu_fn.
+Print Assumptions bleu_class_eq_functional_all_zero_weights_refuted.
